@@ -96,9 +96,17 @@ int parse_instruction_pic18(AsmContext *asm_context, char *instr)
   if (strcmp(instr_case, "tblrd") == 0 ||
       strcmp(instr_case, "tblwt") == 0)
   {
-    while (1)
+    // tblrd*, tblrd*+, tblrd*-, tblrd+*: at most two suffix characters.
+    for (n = 0; ; n++)
     {
       token_type = tokens_get(asm_context, token, TOKENLEN);
+
+      if (n >= 2 &&
+          (IS_TOKEN(token, '*') || IS_TOKEN(token, '-') || IS_TOKEN(token, '+')))
+      {
+        print_error_unexp(asm_context, token);
+        return -1;
+      }
 
       if (IS_TOKEN(token, '*'))
       {
